@@ -411,6 +411,15 @@ def client_cases(rng, tier):
         for v in CLI_PROTOS:
             add("proto:%s/%s" % (v.decode("latin-1"), pcfg), base.copy().set(b"Sec-WebSocket-Protocol", v), {"protocols": pcfg})
         add("proto-dup/%s" % pcfg, base.copy().set(b"Sec-WebSocket-Protocol", b"a").dup(b"Sec-WebSocket-Protocol"), {"protocols": pcfg})
+    # names related to the requested ones as substring / superstring / comma-join / case variant / fragment across the comma
+    for pcfg, vals in ((["wamp.2.json", "wamp.2.msgpack"],
+                        [b"wamp.2.json", b"wamp.2.msgpack", b"wamp.2", b"json", b"msgpack", b"wamp.2.json,wamp.2.msgpack",
+                         b"wamp.2.json, wamp.2.msgpack", b"WAMP.2.JSON", b"Wamp.2.Json", b"wamp.2.json.x", b"xwamp.2.json", b",", b"p.2.j",
+                         b"n,w", b"json,wamp", b"wamp.2.msgpack,wamp.2.json", b"w", b".", b"wamp.2.jsonwamp.2.msgpack", b"wamp.2.json,"]),
+                       (["ab"], [b"ab", b"a", b"b", b"abc", b"AB", b"aB", b"ab,ab", b"ba"]),
+                       (["a", "b"], [b"a,b", b"a,", b",b", b","])):
+        for v in vals:
+            add("proto-related:%s/%s" % (v.decode("latin-1"), pcfg), base.copy().set(b"Sec-WebSocket-Protocol", v), {"protocols": pcfg})
     # the request announced other protocols than factory.protocols (onConnecting returned its own ConnectingRequest)
     for v in (b"a", b"b", b""):
         add("proto-connecting:%s" % v.decode(), base.copy().set(b"Sec-WebSocket-Protocol", v),
